@@ -621,6 +621,16 @@ func (a *asset) consolidateAsset(logger *slog.Logger) error {
 	}
 	badPreEncrypted := false
 	for _, rep := range a.Reps {
+		// The segment lookup assumes that every segment starts where the previous one ends
+		for i, seg := range rep.Segments {
+			if seg.EndTime <= seg.StartTime {
+				return fmt.Errorf("representation %s: segment %d has no duration", rep.ID, i)
+			}
+			if i > 0 && seg.StartTime != rep.Segments[i-1].EndTime {
+				return fmt.Errorf("representation %s: segment %d starts at %d but the previous one ends at %d",
+					rep.ID, i, seg.StartTime, rep.Segments[i-1].EndTime)
+			}
+		}
 		if rep.ContentType != refRep.ContentType && !rep.PreEncrypted {
 			continue
 		}
